@@ -223,8 +223,14 @@ func c05Visibility(v c05Vis, dotu bool, maxpend, P int) Scenario {
 // named while the client goes on sending: a Twrite (and a Twstat / Tcreate with their
 // strings) is held by the implementation, k further requests arrive one per segment,
 // then the held request is carried out.
-func c05ArgsStable(msize uint32, dotu bool) Scenario {
+func c05ArgsStable(msize uint32, dotu bool) Scenario { return c05ArgsStableDebug(msize, dotu, 0) }
+
+// debug: the server's Debuglevel (logging and printing of messages must not change them)
+func c05ArgsStableDebug(msize uint32, dotu bool, debug int) Scenario {
 	name := fmt.Sprintf("arguments-stable-while-held msize=%d dotu=%v", msize, dotu)
+	if debug != 0 {
+		name += fmt.Sprintf(" debuglevel=%d", debug)
+	}
 	return Scenario{Name: name, Run: func(rc *RunCtx) *Result {
 		res := &Result{Exhaustive: true}
 		seen := map[string]bool{}
@@ -235,7 +241,7 @@ func c05ArgsStable(msize uint32, dotu bool) Scenario {
 				for _, follower := range []string{"stat", "write", "mixed"} {
 					var fail string
 					body := func() {
-						s := newSess(SrvOpt{Msize: msize, Dotu: dotu})
+						s := newSess(SrvOpt{Msize: msize, Dotu: dotu, Debug: debug})
 						L := int(msize) - 24
 						s.rpcOK(twalk(s.tag(), 0, 1, "g"), wire.Rwalk)
 						s.rpcOK(&wire.Msg{Type: wire.Topen, Tag: s.tag(), Fid: 1, Mode: 1}, wire.Ropen)
@@ -373,6 +379,7 @@ func c05Scenarios(tier string) []Scenario {
 	// a request held on a fid across the clunk and re-binding of its number: what follows obeys the rules and is forwarded
 	out = append(out, heldAcrossClunkScenario("C05"))
 	out = append(out, c05ArgsStable(64, false), c05ArgsStable(64, true), c05ArgsStable(256, true))
+	out = append(out, c05ArgsStableDebug(256, false, go9p.DbgLogFcalls|go9p.DbgLogPackets), c05ArgsStableDebug(1024, true, go9p.DbgPrintFcalls|go9p.DbgPrintPackets|go9p.DbgLogFcalls))
 	P := 2
 	if tier == "thorough" {
 		P = 3
